@@ -339,6 +339,13 @@ Definition stale_reviews (l : list site4) : list site2 :=
                         negb (existsb (fun w => let '(_, _, ty, fld) := w in String.eqb t ty && (String.eqb f "*" || String.eqb f fld)) l))
               reviewed_writes).
 
+(* the stores of one package among the generated writes: (function, type.field) *)
+Definition writes_in_pkg (pkg : string) (l : list site4) : list site2 :=
+  map (fun w => let '(f, _, ty, fld) := w in (f, ty ++ "." ++ fld))
+      (filter (fun w => let '(f, _, _, _) := w in String.prefix (pkg ++ ":") f) l).
+(* reader/prof/transpiler: no Process method stores into a planner field; the one store is populateTypeId (plan time, on a copy) *)
+Definition prof_transpiler_writes : list site2 := [("prof/transpiler:populateTypeId", "prof/parser.Script.Selectors")].
+
 (* ---------- one context whose id counter continues: when is the statement EXACTLY the fresh one? ----------
    PlannerContext.Id() is drawn by SimpleLabelFilterPlanner, MainRenewPlanner and ByWithoutPlanner only
    (CTE aliases subsel_n, pre_by_without_n, labels_n, pre_without_n); any planner this file does not know is
